@@ -310,6 +310,9 @@ def gen_nameless(rng, tier):
         return c
     # nameless method tracepoints on files with source next to ordinary ones; no module-level frame is traced
     case = gen_case(rng, tier, threads=None)
+    while any(os.path.dirname(f) for f in case['files']):
+        # the source-block table of the model is per file NAME and scope name: no second file with the same name
+        case = gen_case(rng, tier, threads=None)
     if case.get('nosource') or case['mode'] != 'sys':
         case['mode'], case['sched'] = 'sys', []
         case.pop('nosource', None)
